@@ -182,6 +182,7 @@ func exploreConfig(si, ci int, s *Schema, cfg *Config, lim Limits, col *collecto
 			st.bySize[len(s.Items)]++
 			return
 		}
+		rr.BothNestings = lim.BothNestings
 		d := Decode(s, rr)
 		orig := orig
 		if rr.NilCtx {
@@ -322,7 +323,7 @@ func exploreConfig(si, ci int, s *Schema, cfg *Config, lim Limits, col *collecto
 func Run(r *ev.Run) {
 	thorough := r.Thorough()
 	plans := enumerateSchemas(thorough)
-	deadline := 75 * time.Second
+	deadline := 150 * time.Second
 	if thorough {
 		deadline = 18 * time.Minute
 	}
